@@ -8,7 +8,8 @@
   of its calls may itself fail (`mask`).
   WHAT IS PROVED: for every previous file-system state, every new content, every fault — the file at the store's
   path holds the complete previous content (or is still absent) or the complete new content; success ⇒ new content;
-  every other file is untouched; no temp file survives an error return whose clean-up succeeds. At the value level
+  every other file — other than the target AND the stores' temp-file names, which the frame theorems exclude by
+  hypothesis — is untouched; no temp file survives an error return whose clean-up succeeds. At the value level
   the same for ANY encode/decode pair with `decode (encode v) = some v`.
   WHAT IS ASSUMED (not proved here): POSIX semantics as modelled — `rename` is atomic, `O_EXCL` temp names are
   fresh, a killed process leaves exactly the bytes its completed `write` calls put down; the JSON/curve-point
